@@ -273,6 +273,21 @@ OutcomeWhy(hdr, ops, outs) ==
             /\ ops[j1].op = "compile" /\ ops[j2].op = "compile" /\ ops[j1].m = ops[j2].m /\ ops[j1].x = ops[j2].x
             /\ Failed(outs[j1]) /\ outs[j2] = "ok" /\ \A i \in (j1 + 1)..(j2 - 1) : ops[i].op = "compile"
        THEN "refused-construction-accepted-on-retry"
+  \* a refused Compile must not change the construction: when a Compile was refused for its OPTIONS only (the reference finds nothing else
+  \* wrong) and a later Compile of the same declarations comes with acceptable options, it judges the same construction and accepts it.
+  \* Demanded only where acceptance cannot hinge on types (every declared type = the graph's input = output type, no handlers): the
+  \* statement does not say that every well-formed graph compiles.  Graph and Chain (a Workflow re-Compile is generated with the same options only)
+  ELSE IF C20On /\ hdr.fe \in {"graph", "chain"} /\ \E j1 \in 1..n : \E j2 \in (j1 + 1)..n :
+            /\ ops[j1].op = "compile" /\ ops[j2].op = "compile" /\ Failed(outs[j1]) /\ outs[j2] # "ok"
+            /\ \A i \in (j1 + 1)..(j2 - 1) : ops[i].op = "compile"
+            /\ LET J == Construction(ops, j1, jc) IN
+                 /\ Construction(ops, j2, jc) = J
+                 /\ IllFormedWhy(hdr, ops, j1, J) = "invalid-option-combination" /\ IllFormedWhy(hdr, ops, j2, J) = ""
+                 /\ hdr.gi = hdr.go /\ hdr.gi \in Conc
+                 /\ \A j \in J : /\ (ops[j].op \in {"node", "sub"} => (ops[j].i = hdr.gi /\ ops[j].o = hdr.gi /\ ops[j].h = "" /\ ops[j].x = ""))
+                                  /\ (ops[j].op = "branch" => ops[j].t = hdr.gi)
+                                  /\ (ops[j].op = "pass" => ops[j].h = "")
+       THEN "compile-refused-for-options-changed-the-construction"
   ELSE IF C07On /\ jc # 0 /\ ConcreteMismatch(hdr, ops, Accepted(ops, outs, jc)) THEN "accepted-concrete-mismatch"
   ELSE ""
 \* detail for the reason above (which reference predicate fired)
